@@ -19,6 +19,8 @@ pub trait QuadRS: AccessQuad + RankQuad + SelectQuad + WTSupport + From<QVector>
     fn iter_vec(&self) -> Vec<u8>;
     fn ref_into_iter_vec(&self) -> Vec<u8>;
     fn into_iter_vec(self) -> Vec<u8>;
+    /// see Tree::iter_op (forward-only iterator)
+    fn iter_op(&self, which: u8, a: usize, rest: &[u8], op: crate::iterops::IterOp) -> crate::iterops::Out<u8>;
 }
 
 macro_rules! impl_quadrs {
@@ -53,6 +55,14 @@ macro_rules! impl_quadrs {
             }
             fn into_iter_vec(self) -> Vec<u8> {
                 self.into_iter().collect()
+            }
+            fn iter_op(&self, which: u8, a: usize, rest: &[u8], op: crate::iterops::IterOp) -> crate::iterops::Out<u8> {
+                use crate::iterops::*;
+                match which {
+                    0 => { let mut it = self.iter(); advance(&mut it, a); apply_fwd(it, rest, op, None) }
+                    1 => { let mut it = self.into_iter(); advance(&mut it, a); apply_fwd(it, rest, op, None) }
+                    _ => { let mut it = self.clone().into_iter(); advance(&mut it, a); apply_fwd(it, rest, op, None) }
+                }
             }
         }
     };
@@ -202,6 +212,8 @@ pub fn sweep_binrs<X: BinRS>(ctx: &mut Ctx, t: &X, r: &RefBits, dense: usize, un
 /// Positions at which the position iterators are started.
 pub fn with_pos_starts(n: usize, extra: &[usize]) -> Vec<usize> {
     let mut v = vec![0, 1, 63, 64, 65, 511, 512, 513, n / 2, n.saturating_sub(1), n, n + 1, n + 64, UMAX - 1, UMAX];
+    v.extend(crate::sweep::wrap_args(n));
+    v.extend([(1usize << 58) + n.saturating_sub(1), (1 << 61) + n.saturating_sub(1)]);
     v.extend_from_slice(extra);
     v.sort_unstable();
     v.dedup();
